@@ -1,7 +1,7 @@
 #!/usr/bin/env python3
 """Re-run the checks against every stored seeded change (regression of the checks themselves).
 
-usage: seedregress.py [--jobs N] [--only C19,C20] [--tier quick]
+usage: seedregress.py [--jobs N] [--only C19,C20] [--match REGEX] [--tier quick]
 For every /verif/seeded/<name>/ whose meta.json says it was confirmed and caught: apply patch.diff to a scratch
 worktree of /repo HEAD under /tmp (skipped when the patch no longer applies, e.g. because a later fix: commit
 touched the same lines), run the checks that caught it before (VERIF_REPO / VERIF_OUT point away from /repo and
@@ -53,7 +53,7 @@ def one(name, tier):
 
 
 def main():
-    jobs, only, tier = 2, None, "quick"
+    jobs, only, tier, match = 2, None, "quick", None
     for i, a in enumerate(sys.argv):
         if a == "--jobs":
             jobs = int(sys.argv[i + 1])
@@ -61,8 +61,11 @@ def main():
             only = set(sys.argv[i + 1].split(","))
         if a == "--tier":
             tier = sys.argv[i + 1]
+        if a == "--match":
+            import re
+            match = re.compile(sys.argv[i + 1])
     names = sorted(n for n in os.listdir(os.path.join(VERIF, "seeded")) if os.path.isdir(os.path.join(VERIF, "seeded", n))
-                   and (only is None or n.split("-")[0] in only))
+                   and (only is None or n.split("-")[0] in only) and (match is None or match.search(n)))
     head = sh(["git", "-C", "/repo", "rev-parse", "--short", "HEAD"]).stdout.strip()
     vhead = sh(["git", "-C", VERIF, "rev-parse", "--short", "HEAD"]).stdout.strip()
     results = {}
@@ -72,7 +75,7 @@ def main():
             print(name, r["status"], r.get("caught_by", ""), flush=True)
     path = os.path.join(VERIF, "seeded", "REGRESSION.json")
     old = {}
-    if only and os.path.exists(path):
+    if (only or match) and os.path.exists(path):
         old = json.load(open(path)).get("results", {})
     old.update(results)
     summary = {}
